@@ -194,6 +194,18 @@ def attr(o, name):
     return getattr(o, name)
 
 
+def many(fn, n=3000):
+    """A long session: fn(0) .. fn(n-1) (distinct arguments each), [n, last result]."""
+    res = None
+    for i in range(n):
+        try:
+            res = fn(i)
+        except BaseException as e:
+            e.args = ("call number %d: " % i + (str(e.args[0]) if e.args else ""),) + e.args[1:]
+            raise
+    return [n, res]
+
+
 def tmpdir():
     import tempfile
     return tempfile.mkdtemp(prefix="rv_c20_")
@@ -249,6 +261,7 @@ SCEN["context"] = {
         ("bad-two-options", "X('a', '{{x}}', skip_on_missing=True, raise_on_missing=True)",
          "LenaValueError"),
         ("bad-braces", "X('a', 'p{{x}}', value=True)", "LenaValueError"),
+        ("many-distinct", "L.many(lambda i: X('n%d' % i, '{{x}}_%d' % i)((1, {'x': 'X'})))", None),
         ("repr-eq", "[repr(X('a', 'b')), X('a', 'b') == X('a', 'b'), X('a', 'b') == 1]", None),
     ],
     "DeleteContext": [
@@ -274,10 +287,16 @@ SCEN["context"] = {
         ("not-str", "X(5)", "LenaTypeError"),
         ("unbalanced", "X('{{x}')", "LenaValueError"),
         ("single-brace", "X('{x}')", "LenaValueError"),
+        ("many-distinct", "L.many(lambda i: X('{{x}}_%d' % i)({'x': 1}))", None),
+        ("many-distinct-missing", "L.many(lambda i: X('{{x%d}}' % i)({'x0': 1}))", "LenaKeyError"),
     ],
     "format_update_with": [
         ("ok", "(lambda d: (X('a.b', '{{x}}', d), d)[1])({'x': 1})", None),
         ("missing", "X('a', '{{x}}', {})", "LenaKeyError"),
+        ("many-distinct", "L.many(lambda i: (lambda d: (X('a', '{{x}}_%d' % i, d), d['a'])[1])"
+                          "({'x': 1}))", None),
+        ("many-distinct-keys", "L.many(lambda i: (lambda d: (X('a%d.b' % i, '{{x}}', d), "
+                               "sorted(d))[1])({'x': 1}))", None),
     ],
     "get_recursively": [
         ("str", "X({'a': {'b': 1}}, 'a.b')", None),
@@ -290,6 +309,7 @@ SCEN["context"] = {
         ("bad-keys", "X({}, 5)", "LenaTypeError"),
         ("bad-dict-keys", "X({}, {'a': 1, 'b': 2})", "LenaValueError"),
         ("bad-list-keys", "X({}, ['a', 1])", "LenaTypeError"),
+        ("many-distinct", "L.many(lambda i: X({'a%d' % i: {'b': i}}, 'a%d.b' % i))", None),
     ],
     "intersection": [
         ("basic", "X({1: '1', 2: {3: '3', 4: '4'}}, {2: {4: '4'}})", None),
@@ -304,6 +324,7 @@ SCEN["context"] = {
         ("empty", "X('')", None),
         ("one-part", "X('a')", "LenaValueError"),
         ("empty-with-value", "X('', 1)", "LenaValueError"),
+        ("many-distinct", "L.many(lambda i: X('a%d.b.c' % i, i))", None),
     ],
     "str_to_list": [
         ("ok", "X('a.b.c')", None),
@@ -762,6 +783,11 @@ SCEN["meta"] = {
         ("format", "(lambda s: (s._set_context({'detector': 'far'}), s._get_context())[1])"
                    "(X('full', '{{detector}}'))", None),
         ("missing", "X('full', '{{detector}}')._get_context()", "LenaKeyError"),
+        ("many-distinct", "L.many(lambda i: (lambda s: (s._set_context({'detector': 'far'}), "
+                          "s._get_context())[1])(X('full', '{{detector}}_%d' % i)))", None),
+        ("many-distinct-in-sequence",
+         "L.many(lambda i: L.imp('lena.core').Sequence(X('a', i), X('b', 'p%d_{{a}}' % i))"
+         "._get_context(), 2500)", None),
         ("repr-eq", "[repr(X('a', 'b')), X('a', 1) == X('a', 1), X('a', 1) == 1]", None),
         ("in-sequence", "L.imp('lena.core').Sequence(X('a', 1), X('b', '{{a}}'))._get_context()",
          None),
@@ -794,6 +820,7 @@ SCEN["variables"] = {
         ("getter-variable", "X('x', X('y', L.ident))", "LenaTypeError"),
         ("repr", "repr(X('x', L.ident)).split(' at ')[0]", None),
         ("chain", "X('y', L.inc)(X('x', L.inc)(1))", None),
+        ("many-distinct", "L.many(lambda i: X('x%d' % i, L.inc, unit='u%d' % i)((i, {})))", None),
     ],
     "Combine": [
         ("call", "X(P.Variable('x', lambda d: d[0]), P.Variable('y', lambda d: d[1]))((1, 2))", None),
@@ -1013,6 +1040,8 @@ SCEN["output"] = {
         ("existing", "X('new')((1, {'output': {'filename': 'old'}}))", None),
         ("overwrite", "X('new', overwrite=True)((1, {'output': {'filename': 'old'}}))", None),
         ("missing-key", "X('{{zz}}')((1, {}))", None),
+        ("many-distinct", "L.many(lambda i: X('{{a}}_%d' % i, dirname='d%d/{{a}}' % i)"
+                          "((1, {'a': 'A'})))", None),
         ("static", "(lambda m: (m._set_context({'a': 'S'}), m((1, {})))[1])(X('{{a}}'))", None),
         ("not-str", "X(5)", "LenaTypeError"),
         ("no-args", "X()", "LenaTypeError"),
